@@ -124,34 +124,56 @@ SECTIONS = [("capabilities", "CAP", "Capability"), ("extensions", "EXT", "Extens
 
 
 def module(ctx, full):
+    """full: header, memory model, three functions - a complete one; one without definition but with parameters, whose first block
+    has no label and whose second block is empty; one with a definition only.  not full: the same without header and memory model."""
     from . import evalsum
     t = copy.deepcopy(evalsum._templates(ctx))
-    mod, fn, blk = t["Module"], t["Function"], t["Block"]
+    mod = t["Module"]
     for field, name, op in SECTIONS:
         if field == "memory_model":
-            mod[2][field] = ("some", inst(name, op))
+            mod[2][field] = ("some", inst(name, op)) if full else NONE
         else:
             mod[2][field] = ("list", [inst(name, op)])
     mod[2]["types_global_values"] = ("list", [inst("TYPE", "TypeInt"), inst("CONSTANT", "Constant"), inst("VARIABLE", "Variable")])
-    blk[2]["label"] = ("some", inst("LABEL", "Label")) if full else NONE
-    blk[2]["instructions"] = ("list", [inst("ADD", "IAdd"), inst("EXT", "ExtInst"), inst("RETURN", "Return")])
-    fn[2]["def"] = ("some", inst("FUNCTION", "Function")) if full else NONE
-    fn[2]["end"] = ("some", inst("FUNCTION_END", "FunctionEnd"))
-    fn[2]["parameters"] = ("list", [inst("PARAMETER", "FunctionParameter")] if full else [])
-    fn[2]["blocks"] = ("list", [blk])
-    mod[2]["functions"] = ("list", [fn])
+
+    def block(label, insts):
+        b = copy.deepcopy(t["Block"])
+        b[2]["label"] = ("some", inst(label, "Label")) if label else NONE
+        b[2]["instructions"] = ("list", insts)
+        return b
+
+    def function(d, params, blocks, end):
+        f = copy.deepcopy(t["Function"])
+        f[2]["def"] = ("some", inst(d, "Function")) if d else NONE
+        f[2]["parameters"] = ("list", [inst(p_, "FunctionParameter") for p_ in params])
+        f[2]["blocks"] = ("list", blocks)
+        f[2]["end"] = ("some", inst(end, "FunctionEnd")) if end else NONE
+        return f
+    f1 = function("FUNCTION", ["PARAMETER"], [block("LABEL", [inst("ADD", "IAdd"), inst("EXT", "ExtInst"), inst("RETURN", "Return")])], "FUNCTION_END")
+    f2 = function(None, ["F2_PARAMETER1", "F2_PARAMETER2"], [block(None, [inst("F2_EXT", "ExtInst")]), block("F2_LABEL2", [])], "F2_END")
+    f3 = function("F3_FUNCTION", [], [], None)
+    mod[2]["functions"] = ("list", [f1, f2, f3])
     mod[2]["header"] = ("some", ("struct", "ModuleHeader", {})) if full else NONE
     return mod
 
 
-def expected_module(full):
+def _name(x):
+    return x[2].get("name")
+
+
+def expected_module(full, m=None):
+    """header, every global instruction (OpConstant typed, after all of types_global_values was tracked), then per function its
+    definition, parameters, per block label and instructions (OpExtInst named, after all imports were tracked), end"""
     T = lambda n: ("text", "instruction", n)
     out = [("text", "header")] if full else []
-    out += [T(n) for _, n, _ in SECTIONS]
+    out += [T(n) for f_, n, _ in SECTIONS if full or f_ != "memory_model"]
     out += [T("TYPE"), ("text", "typed-constant", "CONSTANT", "TypeTracker", ("TYPE", "CONSTANT", "VARIABLE")), T("VARIABLE")]
-    if full:
-        out += [T("FUNCTION"), T("PARAMETER"), T("LABEL")]
-    out += [T("ADD"), ("text", "named-ext-inst", "EXT", "ExtInstSetTracker", ("IMPORT",)), T("RETURN"), T("FUNCTION_END")]
+
+    def I(n):
+        return ("text", "named-ext-inst", n, "ExtInstSetTracker", ("IMPORT",)) if n.endswith("EXT") else T(n)
+    out += [T("FUNCTION"), T("PARAMETER"), T("LABEL"), T("ADD"), I("EXT"), T("RETURN"), T("FUNCTION_END")]
+    out += [T("F2_PARAMETER1"), T("F2_PARAMETER2"), I("F2_EXT"), T("F2_LABEL2"), T("F2_END")]
+    out += [T("F3_FUNCTION")]
     res = []
     for i, x in enumerate(out):
         if i:
@@ -178,7 +200,7 @@ def container_disassemble(ctx, ty, full):
     h = WH(ctx)
     ev = progx.make(h, "%s::disassemble" % ty)
     h.self_ty = ty
-    fn = module(ctx, full)[2]["functions"][1][0]
+    fn = module(ctx, True)[2]["functions"][1][0]
     selfv = fn if ty == "Function" else fn[2]["blocks"][1][0]
     try:
         r = ev.run(f, {"self": selfv})
@@ -189,17 +211,10 @@ def container_disassemble(ctx, ty, full):
 
 def expected_container(ty, full):
     T = lambda n: ("text", "instruction", n)
-    blk = ([T("LABEL")] if full else []) + ["\n", T("ADD"), "\n", T("EXT"), "\n", T("RETURN")]
+    blk = [T("LABEL"), "\n", T("ADD"), "\n", T("EXT"), "\n", T("RETURN")]
     if ty == "Block":
         return blk
-    out = ([T("FUNCTION")] if full else []) + ["\n"] + ([T("PARAMETER"), "\n"] if full else []) + blk + ["\n", T("FUNCTION_END")]
-    merged = []
-    for p_ in out:
-        if isinstance(p_, str) and merged and isinstance(merged[-1], str):
-            merged[-1] += p_
-        else:
-            merged.append(p_)
-    return merged
+    return [T("FUNCTION"), "\n", T("PARAMETER"), "\n"] + blk + ["\n", T("FUNCTION_END")]
 
 
 # ------------------------------------------------------------------------------------------------- Disassemble for Operand
